@@ -68,6 +68,7 @@ def run(rep: Report, tier: str) -> None:
 	rule_d(rep, idx)
 	rule_e(rep, idx)
 	rule_f(rep, idx)
+	rule_g(rep, idx)
 
 
 # ---- (a) load / unload pairing ------------------------------------------------------------------------------------
@@ -477,3 +478,62 @@ def rule_f(rep: Report, idx: SourceIndex) -> None:
 					r.check(fresh or derived, key, (f.module.relpath, c.lineno), f'{f.qualname} passes `{unparse(a)}` to {g.qualname}, which writes into `{pname}.attrs` in place; the argument is neither a `.to_temporary()` copy nor part of one, so a symbol shared through the SymbolDB is rewritten and the first actual type sticks for every later module of the session (history dependence)', unparse(c)[:140])
 	if n_sites < 2:
 		r.skip('mutator-call-sites', (files[0], 1), f'only {n_sites} call sites of in-place mutators found')
+
+
+# ---- (g) inventory of mutable instance state on pipeline classes ----------------------------------------------------------------------------
+
+STATE_ALLOW = {
+	# constant tables built once in __init__ (never written afterwards)
+	'CVars._name_to_type': 'table', 'ASTNormalizer._handlers': 'table', 'Lexer._analyzers': 'table', 'Lexer._parsers': 'table', 'Tokenizer._handlers': 'table',
+	'TokenDefinition.analyze_order': 'table', 'TokenDefinition.comment': 'table', 'TokenDefinition.quote': 'table', 'TokenDefinition.combined_symbols': 'table', 'TokenDefinition.post_filters': 'table',
+	'SymbolFinder.__library_paths': 'table', 'HelperBuilder.__case_of_injectors': 'per-object builder state', 'BlockFormatter.elems': 'per-object builder state', 'Reflection._attrs': 'per-symbol value',
+	# registries filled at wiring / import time
+	'Middleware.__handlers': 'registry (wiring time)', 'RenderMiddleware.__handlers': 'registry (wiring time)', 'Traits.__interfaces': 'registry (wiring time)', 'Traits.__method_on_trait': 'registry (wiring time)',
+	'Resolver.__ctors': 'registry (wiring time)', 'MetaData.__classes': 'registry (import time)', 'MetaData.__methods': 'registry (import time)', 'Mods._mods': 'registry (wiring time)', 'Mods._cache': 'memo of pure lookups over the registry',
+	'DI.__instances': 'container store (C19)', 'DI.__injectors': 'container store (C19)', 'DI.__invocations': 'memo keyed by factory name (C19)', 'LazyDI.__definitions': 'container store (C19)',
+	# per-module stores with an unload path (rule load-unload-pairing) or owned by a per-module DI instance
+	'Modules.__modules': 'per-module store, unloaded', 'SymbolDB.__paths': 'per-module store, unloaded', 'SymbolDB.__items': 'per-module store, unloaded', 'SymbolDB.__completed': 'per-module store, unloaded',
+	'Entrypoints.__entrypoints': 'per-module store, unloaded', 'EntryCache.__entries': 'owned by one module tree', 'EntryCache.__children': 'owned by one module tree', 'EntryCache.__indexs': 'owned by one module tree',
+	'NodeResolver.__insts': 'per-module DI instance', 'Nodes.__memo': 'per-module DI instance', 'Node._memo': 'per-node memo (node dies with its module)',
+	# content-addressed / run-scoped caches
+	'FileLoader.__hashs': 'content hash per resolved path', 'FileLoader.__mtimes': 'mtime per resolved path (cache identities)', 'CacheProvider.__instances': 'keyed by cache key + identity',
+	'Memo.__cache': 'memo helper itself', 'Memoize.__memos': 'memo helper itself', 'Memoize._memos': 'memo helper itself', 'Rules._memo': 'per rule set (immutable after construction)',
+	# stacks balanced per call
+	'Py2Cpp.__stack_on_depends': 'stack (rule dependency-stack-balanced)', 'Procedure.__stacks': 'stack (C09 exec-stack-balanced)',
+}
+
+
+def _is_container_value(v: ast.AST) -> bool:
+	if isinstance(v, (ast.Dict, ast.List, ast.Set, ast.DictComp, ast.ListComp, ast.SetComp)):
+		return True
+	if isinstance(v, ast.Call):
+		fn = unparse(v.func).split('.')[-1]
+		return fn in ('dict', 'list', 'set', 'Memoize', 'Memo', 'defaultdict', 'OrderedDict', 'deque')
+	return False
+
+
+def rule_g(rep: Report, idx: SourceIndex) -> None:
+	"""Every container or memo held in an instance attribute of a pipeline class is state that can outlive one input. Each one is listed with the reason why
+	it cannot carry results from one module / submission to another (constant table, per-module owner with an unload path, content-addressed key, balanced stack).
+	A container attribute that is not listed is new state nobody has reviewed: typically a memo on a long-lived service whose key forgets part of the input."""
+	r = rep.rule('C04/instance-state-inventory', 'every container / memo held in an instance attribute of a pipeline class is in the reviewed table (with the reason it cannot leak across inputs)', floor=40)
+	seen: set[str] = set()
+	for rel in scan_files(idx):
+		m = idx.mod(rel)
+		for q, c in m.classes.items():
+			for name, defs in c.methods.items():
+				for f in defs:
+					for n in walk_no_nested(f.node):
+						tgt = n.targets[0] if isinstance(n, ast.Assign) and len(n.targets) == 1 else n.target if isinstance(n, ast.AnnAssign) and n.value is not None else None
+						if isinstance(tgt, ast.Attribute) and isinstance(tgt.value, ast.Name) and tgt.value.id == 'self' and _is_container_value(n.value):
+							key = f'{c.name}.{tgt.attr}'
+							if key in seen:
+								continue
+							seen.add(key)
+							why = STATE_ALLOW.get(key)
+							if why is not None:
+								r.ok(key, (rel, n.lineno), message=f'reviewed: {why}')
+							else:
+								r.violate(key, (rel, n.lineno), f'{c.name} keeps a new container/memo in `self.{tgt.attr}` ({unparse(n.value)[:40]}): instances of pipeline classes live across modules and interactive submissions, so whatever is remembered here can answer for another input (a memo keyed by a name that is re-used after unload/reload, a parser memo that is not reset after a failed parse); show that it is reset per input or keyed by the complete input, then list it', unparse(n)[:100])
+	for k in sorted(set(STATE_ALLOW) - seen):
+		r.note(f'listed state no longer present: {k}')
